@@ -36,12 +36,29 @@ size_t carquet_lz4_compress_bound(size_t);
 
 void harness(void) {
     uint8_t* x = malloc(N ? N : 1); symx_assume(x != 0);
+#ifdef CONCX
+    /* incompressible concrete content (all bytes distinct for N <= 256): the capacity is the symbolic dimension */
+    for (int i = 0; i < N; i++) x[i] = (uint8_t)(i * 73 + 11);
+#else
     if (N) symx_make_symbolic(x, N, "x");
+#endif
 #if ALPHA < 256
     for (int i = 0; i < N; i++) symx_assume(x[i] < ALPHA);
 #endif
     size_t bound = BOUND(N);
-#if MODE == 3
+#if MODE == 3 && defined(CONCX)
+    /* concrete content: the true compressed length is known from a run into the full bound; the capacities explored are the 16
+       values just below it (where an estimate that is a few bytes short would overrun) and 0..3 */
+    size_t cap;
+    {
+        uint8_t* c0 = malloc(bound ? bound : 1); symx_assume(c0 != 0);
+        size_t l0 = 0;
+        symx_assume(COMPRESS(x, N, c0, bound, &l0) == CARQUET_OK && l0 <= bound);
+        free(c0);
+        int k = symx_choice(20, "capacity");
+        cap = k < 16 ? (l0 > (size_t)(k + 1) ? l0 - 1 - (size_t)k : 0) : (size_t)(k - 16);
+    }
+#elif MODE == 3
     uint8_t cb; symx_make_symbolic(&cb, 1, "cap"); symx_assume(cb < bound);
     size_t cap = cb;
 #else
